@@ -359,6 +359,7 @@ def run(prop, tier, replay=None):
     assert prop == "C15"
     rep = C.Report(prop, tier)
     wd = C.workdir("C15_" + tier)
+    rep.cleanup.append(wd)
     sd = C.seed()
     T = TIERS[tier]
     if replay is not None:
